@@ -325,6 +325,7 @@ macro_rules! make_resolve_const_function {
         ) -> $const_ty {
             match expr {
                 ConstExprEnum::NumUnsigned(n, _) => *n as $const_ty,
+                ConstExprEnum::NumSigned(n, _) => *n as $const_ty,
                 ConstExprEnum::ExternalValue { party, identifier } => *consts_unsigned
                     .get(&format!("{party}::{identifier}"))
                     .unwrap(),
@@ -354,8 +355,8 @@ macro_rules! make_resolve_const_function {
                 ConstExprEnum::ConstExprIdent(ident) => *consts_unsigned
                     .get(ident)
                     .expect("Identifier existence checked during type cheking"),
-                ConstExprEnum::True | ConstExprEnum::False | ConstExprEnum::NumSigned(_, _) => {
-                    panic!("Not a signed const expr: {expr:?}")
+                ConstExprEnum::True | ConstExprEnum::False => {
+                    panic!("Not a numeric const expr: {expr:?}")
                 }
             }
         }
